@@ -146,6 +146,11 @@ fn verif_vec_range_mut(v: &mut Vec<u8>, a: usize, b: usize) -> (r: &mut [u8])
     ensures r@ == old(v)@.subrange(a as int, b as int), final(r)@.len() == r@.len(),
             final(v)@ == splice3(old(v)@, a as int, b as int, final(r)@),
 { unimplemented!() }
+// rule A3: a panic never returns
+#[verifier::external_body]
+fn verif_panic<A>() -> (r: A)
+    ensures false,
+{ panic!() }
 // rule U2: the two slice::from_raw_parts* calls of get_pair_mut. The REQUIRES is their safety condition.
 #[verifier::external_body]
 fn verif_two_ranges(data: &mut Vec<u8>, a: usize, n: usize, b: usize, m: usize) -> (r: (&mut [u8], &[u8]))
@@ -222,6 +227,21 @@ def build():
                   'slab_wf(*final(self))', 'view(*final(self)) == view(*old(self)).update(dest as int, final(r.0)@)',
                   'final(self).count == old(self).count && final(self).symbol_size == old(self).symbol_size && final(self).mapping == old(self).mapping'],
          )
+    # C12, stronger form: get_pair_mut is memory safe for EVERY reorder mapping (set_reorder is a safe pub fn that stores any Vec):
+    # its own asserts (rule A3: refusal by panic) must imply the safety condition of the two from_raw_parts calls.
+    u.raw('''
+    #[verifier::external_body]
+    fn physical_index_any(&self, i: usize) -> (r: usize)
+        ensures self.mapping.is_none() ==> r == i,
+    { unimplemented!() }
+''', label='physical_index with an arbitrary mapping: any result (an out-of-range look-up panics, which is safe)')
+    u.fn('src/symbol_slab.rs', 'get_pair_mut', impl='impl SymbolSlab', ret='r', rules=['U2', 'A3'], rename='get_pair_mut_any_mapping',
+         subst=[('self.physical_index(', 'self.physical_index_any(', 'arbitrary-mapping')],
+         requires=['old(self).data@.len() == old(self).count as int * old(self).symbol_size as int', 'old(self).data@.len() <= usize::MAX'],
+         ensures=['true'],
+         inserts=[('let ss = self.symbol_size;', 'before',
+                   'proof { lemma_range(self.count as int, self.symbol_size as int, dest as int); lemma_range(self.count as int, self.symbol_size as int, src as int);'
+                   ' lemma_disjoint(self.symbol_size as int, dest as int, src as int); }')])
     OPREQ2 = ['slab_wf(*old(self))', '(dest as int) < old(self).count', '(src as int) < old(self).count', 'dest != src']
     FRAME = 'final(self).count == old(self).count && final(self).symbol_size == old(self).symbol_size && final(self).mapping == old(self).mapping'
     u.fn('src/symbol_slab.rs', 'add_assign', impl='impl SymbolSlab', ret='r', requires=OPREQ2,
